@@ -14,6 +14,7 @@ import ClarabelProofs.Lemmas.InfoReportExample
 import ClarabelProofs.Lemmas.SolverReport
 import ClarabelModel.InfoReset
 import ClarabelProofs.Props.C03Full2
+import ClarabelProofs.Props.C03NS
 
 namespace Clarabel.C03
 open Clarabel.Dense Clarabel.Info Finset
